@@ -76,10 +76,12 @@ impl Parser {
 
         let mut parsed_schemas = Vec::with_capacity(self.parsed_schemas.len());
         for name in self.input_order.drain(0..) {
+            // An input like `{"name": "Y", "type": {"type": "record", "name": "X", ...}}` is stored
+            // under the name of the inner type, so there may be nothing under the input's own name.
             let parsed = self
                 .parsed_schemas
                 .remove(&name)
-                .expect("One of the input schemas was unexpectedly not parsed");
+                .ok_or_else(|| Details::SchemaResolutionError(name.clone()))?;
             parsed_schemas.push(parsed);
         }
         Ok(parsed_schemas)
